@@ -81,6 +81,17 @@ CLAIMED = {
          "with a server's store is not decided.",
     technique="local taint (def-use) from reply content to regex sinks + regex language inclusion (DFA) + AST shape of the decoders",
     ref="4/C17"),
+ "C02": dict(
+    text="Termination as a progress argument, exception-freedom as an escape analysis against the single try/except funnel of Parser.parse: X1 "
+         "every lexer rule has minimum width >= 1 (regex analysis) and every cycle of the lexer loop passes a position update taken from a successful "
+         "match at the current position; X2 the position is otherwise written only by one bounded replay conditional on an observed command-state "
+         "change; X3 all other loops are parent walks / counting loops / for-loops over unmodified objects; X4 raise closure: every class raised "
+         "in the call-graph closure of parse is caught by the funnel, token loop inside the try; X5 every decode is ASCII-only by token class, "
+         "non-raising by error policy, or under the funnel catching UnicodeDecodeError; X6/X7 integer and constant-key subscripts are guarded; X8 "
+         "registry names producible by the lookup scheme are concrete commands or rejected; X9-X11 format arity, state-slot call, verdict shape; "
+         "L7 no polynomial-backtracking regex shape. Not covered: None current command typestate, resource errors.",
+    technique="regex width/backtracking analysis + CFG cycle/dominance queries + call-graph raise closure + guarded-subscript dataflow",
+    ref="4/C02"),
 }
 NA = {}
 
